@@ -233,14 +233,33 @@ func c11ErrEnum(err error, panicked bool) string {
 		return "ok"
 	case errors.Is(err, order.ErrInsufficientBalance):
 		return "err-insufficient"
-	case strings.Contains(err.Error(), "invalid lease duration"):
-		return "err-duration"
-	case strings.Contains(err.Error(), "invalid max batch fee rate"):
-		return "err-fee-floor"
-	case strings.Contains(err.Error(), "self chan balance") || strings.Contains(err.Error(), "outbound liquidity"):
-		return "err-self-chan"
 	}
-	return "err-other:" + err.Error()
+	// every other error of validateOrder is one of its formal checks; which one is decided by c11Refine from the
+	// order's terms and the real ValidateSelfChanBalance – never from the error text
+	return "err-formal"
+}
+
+// c11Refine names the formal check an "err-formal" outcome stands for: the first of validateOrder's three formal
+// conditions that the order violates (duration bucket, fee floor, self channel balance rules – the last one decided
+// by the real Bid.ValidateSelfChanBalance). An "err-formal" that none of them explains stays as it is and shows up
+// as a disagreement with the model.
+func c11Refine(res string, o c11Order, tm *terms.AuctioneerTerms) string {
+	if res != "err-formal" {
+		return res
+	}
+	if _, ok := tm.LeaseDurationBuckets[o.Dur]; !ok {
+		return "err-duration"
+	}
+	if o.MaxFee < int64(chainfee.FeePerKwFloor) {
+		return "err-fee-floor"
+	}
+	if bid, ok := o.real(1).(*order.Bid); ok && bid.SelfChanBalance > 0 {
+		var verr error
+		if c11Safe(func() { verr = bid.ValidateSelfChanBalance() }) == "" && verr != nil {
+			return "err-self-chan"
+		}
+	}
+	return res
 }
 
 func runC11(r *Run) {
@@ -360,7 +379,7 @@ func runC11(r *Run) {
 	c11BeyondGuard(r, r.N/20)
 
 	// ---- (4b) validateOrder on a manager that holds a pending batch ----
-	g := &bGen{rng: r.Rng, search: r.Search, prop: "C11"}
+	g := &bGen{rng: r.Rng, search: false, prop: "C11"} // honest proposals wanted, also when searching
 	for i := 0; i < r.N/40+20 && len(r.Violations) < 20; i++ {
 		c11RunValidatePending(r, c11GenValidatePending(r, g, i))
 	}
@@ -1084,9 +1103,9 @@ func c11RunValidate(r *Run, ctx context.Context, c c11Case) {
 		}()
 		if prepare {
 			_, err := mgr.PrepareOrder(ctx, o.real(1), acct, tm)
-			return c11ErrEnum(err, false)
+			return c11Refine(c11ErrEnum(err, false), o, tm)
 		}
-		return c11ErrEnum(order.VerifC11ValidateOrder(mgr, o.real(1), acct, tm), false)
+		return c11Refine(c11ErrEnum(order.VerifC11ValidateOrder(mgr, o.real(1), acct, tm), false), o, tm)
 	}
 	st := mkStore(false)
 	got := call(st, false)
@@ -1431,7 +1450,7 @@ func c11RunValidatePending(r *Run, c c11Case) {
 	}
 	validate := func() (res string) {
 		if pm := c11Safe(func() {
-			res = c11ErrEnum(order.VerifC11ValidateOrder(mgr.(order.Manager), o.real(1), acct, tm), false)
+			res = c11Refine(c11ErrEnum(order.VerifC11ValidateOrder(mgr.(order.Manager), o.real(1), acct, tm), false), o, tm)
 		}); pm != "" {
 			return "panic"
 		}
